@@ -7,7 +7,12 @@ pub mod c16;
 pub mod c17;
 pub mod rel;
 
+pub mod c08;
+
 pub fn dispatch(_cmd: &str, _a: &Args) -> bool {
+    if c08::dispatch(_cmd, _a) {
+        return true;
+    }
     match _cmd {
         "c03" => c03::run(_a),
         "c03-suite" => c03::suite(_a),
